@@ -84,10 +84,15 @@ static int replay_pivots(const ref_t *Gd, int_t n, const int_t *perm_r, const in
     ref_t *M = xcalloc((size_t)n * n + 1, sizeof(ref_t));
     for (int_t j = 0; j < n; ++j) for (int_t i = 0; i < n; ++i) M[(size_t)perm_c[j] * n + perm_r[i]] = Gd[(size_t)j * n + i];
     int verdict = 1;
+    /* largest magnitude each column has had: candidates that are tiny relative to it are cancellation residue (exactly
+       zero in exact arithmetic, rounding noise in the library's working precision): nothing can be decided from them */
+    ld *cscale = xcalloc(n + 1, sizeof(ld));
+    for (int_t j = 0; j < n; ++j) for (int_t i = 0; i < n; ++i) { ld a = rabs1(M[(size_t)j * n + i]); if (a > cscale[j]) cscale[j] = a; }
     for (int_t k = 0; k < n; ++k) {
         ld mx = 0;
         for (int_t i = k; i < n; ++i) { ld a = rabs1(M[(size_t)k * n + i]); if (a > mx) mx = a; }
         ld pv = rabs1(M[(size_t)k * n + k]);
+        if (mx <= 1e-5L * cscale[k]) { verdict = 0; break; }
         if (u == 0 && pv <= 1e-10L * mx) { verdict = 0; break; }    /* a vanishing pivot may be rounding noise in working precision: undecidable */
         if (pv == 0 || pv < u * mx * (1.0L - 1e-6L)) { verdict = -1; break; }
         if (pv < u * mx * (1.0L + 1e-6L)) verdict = 0;
@@ -95,10 +100,10 @@ static int replay_pivots(const ref_t *Gd, int_t n, const int_t *perm_r, const in
         for (int_t i = k + 1; i < n; ++i) {
             ref_t l = M[(size_t)k * n + i] / piv;
             if (l == 0) continue;
-            for (int_t j = k + 1; j < n; ++j) M[(size_t)j * n + i] -= l * M[(size_t)j * n + k];
+            for (int_t j = k + 1; j < n; ++j) { M[(size_t)j * n + i] -= l * M[(size_t)j * n + k]; ld a = rabs1(M[(size_t)j * n + i]); if (a > cscale[j]) cscale[j] = a; }
         }
     }
-    free(M);
+    free(M); free(cscale);
     return verdict;
 }
 
@@ -122,6 +127,9 @@ static int hist_core(const case_t *c, int emit)
     hs_t H; memset(&H, 0, sizeof H);
     hx_ienv_from_case(c);
     if (gen_matrix(c, &rng, &H.G)) { if (emit) { jo_begin(c); jo_str("error", "gen_matrix"); jo_end(); } return 2; }
+    /* capacities of U (sp_ienv(7)) and of the L subscripts (sp_ienv(8)) as fractions of nnz(A): near the real need */
+    if (cdbl(c, "fill7frac", 0) > 0) { hx_ienv[7] = (long)(cdbl(c, "fill7frac", 0) * (double)H.G.nnz); if (hx_ienv[7] < 1) hx_ienv[7] = 1; }
+    if (cdbl(c, "fill8frac", 0) > 0) { hx_ienv[8] = (long)(cdbl(c, "fill8frac", 0) * (double)H.G.nnz); if (hx_ienv[8] < 1) hx_ienv[8] = 1; }
     int_t n = H.n = H.G.n;
     H.Gd = csc_dense(&H.G);
     H.base = xmalloc((H.G.nnz + 1) * sizeof(elem_t)); memcpy(H.base, H.G.val, H.G.nnz * sizeof(elem_t));
@@ -266,6 +274,12 @@ static int hist_core(const case_t *c, int emit)
                 check_reconstruction(H.Gd, &d, H.perm_r, H.perm_c, &H.W, &growth, key);
                 if (refact && usepr) {
                     int v = replay_pivots(H.Gd, n, H.perm_r_prev, H.perm_c, (ld)H.u);
+                    if (getenv("HX_DEBUG")) {
+                        fprintf(stderr, "op %ld verdict %d\nperm_c:", nops, v); for (int_t j = 0; j < n; ++j) fprintf(stderr, " %ld", (long)H.perm_c[j]);
+                        fprintf(stderr, "\nperm_r_prev:"); for (int_t j = 0; j < n; ++j) fprintf(stderr, " %ld", (long)H.perm_r_prev[j]);
+                        fprintf(stderr, "\nperm_r:     "); for (int_t j = 0; j < n; ++j) fprintf(stderr, " %ld", (long)H.perm_r[j]);
+                        fprintf(stderr, "\nA (|.|1, row-major):\n"); for (int_t i = 0; i < n; ++i) { for (int_t j = 0; j < n; ++j) fprintf(stderr, " %10.3Le", rabs1(H.Gd[(size_t)j * n + i])); fprintf(stderr, "\n"); }
+                    }
                     int same = !memcmp(H.perm_r_prev, H.perm_r, n * sizeof(int_t));
                     if (v == 1) { ++usepr_kept; if (!same) jo_fail("C08|usepr-changed-valid-pivots", "op %ld: every old pivot passes the threshold u=%g with margin but perm_r changed", nops, H.u); }
                     else if (v == -1) { ++usepr_changed; if (same) jo_fail("C08|usepr-kept-failing-pivot", "op %ld: an old pivot clearly fails the threshold u=%g but perm_r is unchanged", nops, H.u); }
@@ -277,8 +291,29 @@ static int hist_core(const case_t *c, int emit)
                     const SCPformat *Ls = H.L.Store; const NCPformat *Us = H.U.Store;
                     const void *ptrs[] = { Ls->nzval, Ls->rowind, Ls->nzval_colbeg, Ls->nzval_colend, Ls->rowind_colbeg, Ls->rowind_colend, Ls->col_to_sup, Ls->sup_to_colbeg, Ls->sup_to_colend,
                                            Us->nzval, Us->rowind, Us->colbeg, Us->colend };
-                    for (size_t q = 0; q < sizeof ptrs / sizeof ptrs[0]; ++q)
-                        if (!in_buf(ptrs[q], H.work, H.lwork)) { jo_fail("C14|storage-outside-workspace", "array #%zu of L/U lies outside the caller's workspace", q); break; }
+                    /* the part of each array that the returned factors use */
+                    long mxl = 0, mxs = 0, mxu = 0;
+                    for (int_t j = 0; j < n; ++j) {
+                        if (Ls->nzval_colend[j] > mxl) mxl = Ls->nzval_colend[j];
+                        if (Ls->rowind_colend[j] > mxs) mxs = Ls->rowind_colend[j];
+                        if (Us->colend[j] > mxu) mxu = Us->colend[j];
+                    }
+                    size_t lens[] = { (size_t)mxl * sizeof(elem_t), (size_t)mxs * sizeof(int_t), (size_t)(n + 1) * sizeof(int_t), (size_t)n * sizeof(int_t), (size_t)(n + 1) * sizeof(int_t), (size_t)n * sizeof(int_t),
+                                      (size_t)(n + 1) * sizeof(int_t), (size_t)(n + 1) * sizeof(int_t), (size_t)n * sizeof(int_t),
+                                      (size_t)mxu * sizeof(elem_t), (size_t)mxu * sizeof(int_t), (size_t)(n + 1) * sizeof(int_t), (size_t)n * sizeof(int_t) };
+                    static const char *anm[] = { "L values", "L subscripts", "L nzval_colbeg", "L nzval_colend", "L rowind_colbeg", "L rowind_colend", "col_to_sup", "sup_to_colbeg", "sup_to_colend",
+                                                 "U values", "U subscripts", "U colbeg", "U colend" };
+                    int bad = 0;
+                    for (size_t q = 0; q < sizeof ptrs / sizeof ptrs[0] && !bad; ++q) {
+                        const char *lo = ptrs[q], *hi = lo + lens[q];
+                        if (!in_buf(ptrs[q], H.work, H.lwork) || hi > (const char *)H.work + H.lwork) {
+                            jo_fail("C14|storage-outside-workspace", "%s [%ld bytes used] of the returned factors do not lie inside the caller's workspace", anm[q], (long)lens[q]); bad = 1; break; }
+                        for (size_t q2 = q + 1; q2 < sizeof ptrs / sizeof ptrs[0]; ++q2) {
+                            const char *lo2 = ptrs[q2], *hi2 = lo2 + lens[q2];
+                            if (lo < hi2 && lo2 < hi && lens[q] && lens[q2]) {
+                                jo_fail("C14|storage-overlap", "%s (%ld bytes used) and %s (%ld bytes used) of the returned factors share memory inside the caller's workspace", anm[q], (long)lens[q], anm[q2], (long)lens[q2]); bad = 1; break; }
+                        }
+                    }
                     ++inbuf_checked;
                 }
                 uint64_t dg = lu_digest(&H, FNV0);
@@ -311,7 +346,10 @@ static int hist_core(const case_t *c, int emit)
                 int_t *pc2 = xmalloc((n + 1) * sizeof(int_t)), *pr2 = xmalloc((n + 1) * sizeof(int_t));
                 elem_t *bb = xmalloc((n + 1) * sizeof(elem_t)), *xx = xmalloc((n + 1) * sizeof(elem_t));
                 gen_rhs(&rng, n, 1, n, bb, "generic");
-                CREATE_COMPCOL(&A2, n, n, T.nnz, T.val, T.rowind, T.colptr, SLU_NC, SLU_DT, SLU_GE);
+                if (cint(c, "zerorhs", 0) == 1) for (int_t i = 0; i < n; ++i) bb[i] = MKE(0, 0);          /* b = 0: x = 0, every |A||x|+|b| component is 0 */
+                else if (cint(c, "zerorhs", 0) == 2) for (int_t i = 0; i < n; i += 2) bb[i] = MKE(0, 0);  /* some exactly zero components */
+                /* arg 3: row-wise storage and a second call that re-uses the factors (fact = FACTORED); arg 4: the same column-wise */
+                CREATE_COMPCOL(&A2, n, n, T.nnz, T.val, T.rowind, T.colptr, (op == 'E' && arg == 3) ? SLU_NR : SLU_NC, SLU_DT, SLU_GE);
                 CREATE_DENSE(&B2, n, 1, bb, n > 0 ? n : 1, SLU_DN, SLU_DT, SLU_GE);
                 CREATE_DENSE(&X2, n, 1, xx, n > 0 ? n : 1, SLU_DN, SLU_DT, SLU_GE);
                 get_perm_c(ord, &A2, pc2);
@@ -329,6 +367,13 @@ static int hist_core(const case_t *c, int emit)
                     real_t *R2 = xmalloc((n + 1) * sizeof(real_t)), *C2 = xmalloc((n + 1) * sizeof(real_t)), fe[2], be[2], rpg2, rc2;
                     equed_t eq2; superlu_memusage_t mu;
                     GSSVX(nprocs, &o2, &A2, pc2, pr2, &eq2, R2, C2, &L2, &U2, &B2, &X2, &rpg2, &rc2, fe, be, &mu, &info);
+                    if ((arg == 3 || arg == 4) && info == 0) {
+                        int_t info3 = -999;
+                        o2.fact = FACTORED; o2.trans = (trans_t)(nops % 3);
+                        gen_rhs(&rng, n, 1, n, bb, "generic");
+                        GSSVX(nprocs, &o2, &A2, pc2, pr2, &eq2, R2, C2, &L2, &U2, &B2, &X2, &rpg2, &rc2, fe, be, &mu, &info3);
+                        if (info3 != 0 && info3 != n + 1) jo_fail("C08|factored-info", "history op E%d: re-use of the factors returned info = %ld", arg, (long)info3);
+                    }
                     SUPERLU_FREE(o2.etree); SUPERLU_FREE(o2.colcnt_h); SUPERLU_FREE(o2.part_super_h);
                     /* every output of the expert driver that is defined for this info */
                     dv = fnv(&info, sizeof info, dv);
